@@ -1078,7 +1078,8 @@ class _Gen:
 
     def mk_comptime_enum(self):
         cands = [e for e in sorted(self.enums)
-                 if any(p is not None and p[0] == "int" for _, p, _ in self.enums[e])]
+                 if e in self.enum_score
+                 and any(p is not None and p[0] == "int" for _, p, _ in self.enums[e])]
         if not cands:
             return self.mk_enum() if "enums" in self.f else self.mk_const()
         e = self.rnd.choice(cands)
